@@ -40,3 +40,5 @@ package crypto
 
 // Signing reads the hash and the key; it modifies nothing that is modelled.
 //@ trusted func Sign(hash []byte, prv *ecdsa.PrivateKey) (sig []byte, err error)
+// The address of a created contract is a function of creator and nonce.
+//@ trusted func CreateAddress(b common.Address, nonce uint64) (r common.Address)
